@@ -89,7 +89,29 @@ class BuildError(Exception):
         self.log = log
 
 
+import contextlib
+import fcntl
+
+
+@contextlib.contextmanager
+def build_lock(name):
+    """Serialises builds between concurrently running checks (one lock per kind of build)."""
+    os.makedirs(BUILD, exist_ok=True)
+    f = open(os.path.join(BUILD, ".lock_" + name), "w")
+    try:
+        fcntl.flock(f, fcntl.LOCK_EX)
+        yield
+    finally:
+        fcntl.flock(f, fcntl.LOCK_UN)
+        f.close()
+
+
 def build_harness(variant="std"):
+    with build_lock("harness"):
+        return _build_harness(variant)
+
+
+def _build_harness(variant="std"):
     """Compile /repo/src + /verif/harness into build/<hash>/hdrv_<variant>; return its path."""
     repo_files = glob.glob(os.path.join(REPO, "src", "*.[ch]")) + [os.path.join(REPO, "strophe.h")]
     h_files = glob.glob(os.path.join(VERIF, "harness", "*.[ch]"))
@@ -172,6 +194,11 @@ def _in_variant(path, variant):
 
 
 def run_extract():
+    with build_lock("lake"):
+        return _run_extract()
+
+
+def _run_extract():
     """Regenerate Gen/*.lean; returns list of error strings."""
     import importlib
     import extract as ex
@@ -249,10 +276,11 @@ def gen_lean_roots():
 
 def lake_build(targets):
     """Returns (ok, seconds, log)."""
-    gen_lean_roots()
-    t0 = time.time()
-    p = subprocess.run(["lake", "build"] + targets, cwd=LEAN, capture_output=True, text=True)
-    return p.returncode == 0, time.time() - t0, p.stdout + p.stderr
+    with build_lock("lake"):
+        gen_lean_roots()
+        t0 = time.time()
+        p = subprocess.run(["lake", "build"] + targets, cwd=LEAN, capture_output=True, text=True)
+        return p.returncode == 0, time.time() - t0, p.stdout + p.stderr
 
 
 def drv_path():
